@@ -60,9 +60,19 @@ def country_invariant(cc, s):
             # generic triple bank/branch/account rely on that for a missing branch field - anything else must exist
             if c.value not in pos and c.value not in ("branch_code",):
                 bad.append(f"national algorithm reads undefined field {c.value}")
-        if "national_checksum_digits" in pos and algo.compute(["0" * 30] * len(algo.accepts)) == "" \
-                and type(algo).__module__.endswith(("czech_republic",)) is False:
-            pass
+        # the algorithm must give a verdict on a structure-conforming BBAN of the country (no crash on fields the
+        # country does not define), and a computed check value needs a field to live in
+        try:
+            cl_ = CC.classes(s["bban_spec"])
+            sample = "".join("A" if k == "a" else "1" for k in cl_)
+            from schwifty import BBAN
+            from schwifty.exceptions import SchwiftyException
+            try:
+                BBAN(cc, sample).validate_national_checksum()
+            except SchwiftyException:
+                pass
+        except Exception as ex:  # noqa: BLE001
+            bad.append(f"national algorithm crashes on a structure-conforming BBAN: {type(ex).__name__}: {ex}")
     for c in s.get("bic_lookup_components", []):
         if c not in pos:
             bad.append(f"bic_lookup_components names undefined field {c}")
